@@ -51,6 +51,10 @@ pub enum Op {
 	/// headers of `len` blocks on top of the head arrive without their bodies (header-first announcement,
 	/// header sync): the header chain runs ahead of the body chain the pool has to follow
 	HeaderAhead { len: u8 },
+	/// a chain of dependent transactions submitted in one go: a fresh one spending UTXO outputs, then each next
+	/// one spending the previous one's output, with the given fee classes (so that fee order and dependency
+	/// order disagree in every possible way)
+	Chain { ins: Vec<u16>, fees: Vec<u8> },
 }
 
 #[derive(Clone, Debug, Serialize, Deserialize)]
@@ -84,6 +88,7 @@ pub fn case_strategy(max_ops: usize) -> impl Strategy<Value = Case> {
 				2 => Just(Op::Mine),
 				1 => (1u8..=3, 1u8..=4).prop_map(|(depth, len)| Op::Fork { depth, len }),
 				1 => (1u8..=3).prop_map(|len| Op::HeaderAhead { len }),
+				2 => (prop::collection::vec(any::<u16>(), 1..=2), prop::collection::vec(0u8..4, 3..=5)).prop_map(|(ins, fees)| Op::Chain { ins, fees }),
 			],
 			4..=max_ops,
 		),
@@ -641,6 +646,49 @@ pub fn run_case(ctx: &Ctx, case: &Case, counting: bool) -> PResult {
 					ev.class_n("mined_txs", txs.len() as u64);
 				}
 			}
+			Op::Chain { ins, fees } => {
+				let utxo = env.utxo_spendable();
+				let mut first: Vec<OutRef> = vec![];
+				for p in ins {
+					if let Some(o) = pick(&utxo, *p) {
+						if !first.contains(o) {
+							first.push(*o);
+						}
+					}
+				}
+				let mut prev_out: Option<OutRef> = None;
+				for (k, fc) in fees.iter().enumerate() {
+					// the previous link may have been evicted to make room (small pools): the chain ends there
+					if let Some(o) = prev_out {
+						if !env.pool_outputs_unspent().contains(&o) {
+							break;
+						}
+					}
+					let inputs = match prev_out {
+						None => first.clone(),
+						Some(o) => vec![o],
+					};
+					let Some(sp) = env.spec_from(inputs, 1, *fc, 0, 0) else { break };
+					let out0 = sp.outputs[0];
+					let tx = assemble(&sp).0;
+					match env.pool.add_to_pool(TxSource::Broadcast, tx, false, &header) {
+						Ok(()) => {
+							prev_out = Some(out0);
+							if k > 0 {
+								dependent = true;
+							}
+							if counting {
+								ev.class(&format!("chain_link_admitted:depth{}", (k + 1).min(5)));
+							}
+						}
+						Err(e) => {
+							let s = format!("{:?}", e);
+							ensure!(s.contains("OverCapacity"), "pool-refused-valid", "op {}: pool refused link {} of a chain of valid dependent transactions: {}", i, k + 1, s);
+							break;
+						}
+					}
+				}
+			}
 			Op::HeaderAhead { len } => {
 				// built on the head like any block, but only the headers are delivered; the bodies never arrive
 				let mut parent_hdr = env.w.nodes[env.head].block.header.clone();
@@ -699,6 +747,7 @@ pub fn run_case(ctx: &Ctx, case: &Case, counting: bool) -> PResult {
 			Op::Mine => "mine",
 			Op::Fork { .. } => "fork",
 			Op::HeaderAhead { .. } => "header-ahead",
+			Op::Chain { .. } => "chain",
 		}))?;
 	}
 	if counting {
